@@ -88,7 +88,7 @@ func (s *sys) callArgs(parts ...string) ([][]byte, func()) {
 }
 
 func newSys(dbName string, nShards int) (*sys, error) {
-	root, err := os.MkdirTemp("", "lvh-c09-*")
+	root, err := os.MkdirTemp(scratchBase(), "lvh-c09-*")
 	if err != nil {
 		return nil, harnessError{err}
 	}
@@ -99,6 +99,26 @@ func newSys(dbName string, nShards int) (*sys, error) {
 		return nil, err
 	}
 	return s, nil
+}
+
+// scratchBase: where the case directories live. A crash in this framework is a PROCESS crash (completed
+// file operations survive, see DESIGN section 6), so the durability of the scratch file system is irrelevant:
+// a memory file system is used when there is one (fsync on a disk made up 85 % of a run's wall time — 30 s
+// instead of 4 s per 262 cases; a violation search after a broken proof runs eight times that). $LVH_SCRATCH
+// overrides; "" = os.TempDir().
+func scratchBase() string {
+	if d := os.Getenv("LVH_SCRATCH"); d != "" {
+		return d
+	}
+	const shm = "/dev/shm"
+	if st, err := os.Stat(shm); err == nil && st.IsDir() {
+		if f, err := os.CreateTemp(shm, "lvh-c09-probe-*"); err == nil {
+			f.Close()
+			os.Remove(f.Name())
+			return shm
+		}
+	}
+	return ""
 }
 
 // harnessError marks a failure of the harness's own scratch-file handling (temp dir, directory copy).
@@ -325,6 +345,10 @@ func errKind(err error) string {
 	switch {
 	case errors.As(err, &he):
 		return harnessPrefix + strings.ReplaceAll(m, "\n", " ")
+	case strings.Contains(m, "too many namespace"):
+		return "err too-many-namespaces"
+	case strings.Contains(m, "too many metric name"):
+		return "err too-many-metrics"
 	case strings.Contains(m, "too many series"):
 		return "err too-many-series"
 	case strings.Contains(m, "too many tag keys"), strings.Contains(m, "too many tag"):
@@ -533,6 +557,17 @@ func (s *sys) indexFlushFail(shard int) error {
 	index.VerifFailNextKVFlush(1)
 	err := s.shards[shard].Flush()
 	index.VerifFailNextKVFlush(0)
+	return err
+}
+
+// indexFlushFault: the REAL metricIndexDatabase.Flush of one shard during which step `step` (0 postings,
+// 1 forward, 2 inverted, 3 series dictionary) fails at its kv family commit — when that step has something
+// to write; otherwise no fault is placed and the flush is an ordinary one. What Flush does after the failed
+// step is lindb's own control flow (fault seam index/zz_verif_c09d.go).
+func (s *sys) indexFlushFault(shard, step int) error {
+	index.VerifFailIndexFlushStep(s.shards[shard], step)
+	err := s.shards[shard].Flush()
+	index.VerifClearIndexFlushFault()
 	return err
 }
 
